@@ -741,6 +741,7 @@ func checkC02(c *Ctx) {
 	laFrame(c, "LA-frame")
 	laOffset(c, "LA-offset")
 	laCells(c, "LA-cells")
+	laFooterMeta(c, "LA-footer", map[string]bool{"totals": true})
 	runFT(c, "FT", map[string]bool{"count": true, "schema": true})
 	runTD(c, "TD", map[string]bool{"write": true, "add": true})
 	runWHRows(c, "WH-rows")
